@@ -379,6 +379,65 @@ func run(o op) {
 			}
 		}
 		emit(event{"ev": "RunsAll", "op": o.Op, "w": o.W, "kind": o.Kind, "count": total, "bad": bad, "nbad": len(bad)})
+	case "encgrid":
+		// systematic grid: a lead of non-repeating values (0..MaxLen long, two patterns), then a run of one value
+		// (every length 1..NRuns and the boundary lengths), then a tail - the alignments an encoder's run/group switch sees
+		total, bad, emitted := 0, []event{}, 0
+		nv := 1 << uint(o.W)
+		lens := []int{}
+		for r := 1; r <= o.NRuns; r++ {
+			lens = append(lens, r)
+		}
+		lens = append(lens, o.RunLens...)
+		for lead := 0; lead <= o.MaxLen; lead++ {
+			for pat := 0; pat < 2; pat++ {
+				for _, r := range lens {
+					for v := 0; v < nv && v < 4; v++ {
+						for tail := 0; tail < 5; tail++ {
+							lv := make([]uint8, 0, lead+r+9)
+							for i := 0; i < lead; i++ {
+								x := (i + pat) % nv
+								if pat == 1 && i%3 == 2 {
+									x = (x + 1) % nv
+								}
+								lv = append(lv, uint8(x))
+							}
+							for i := 0; i < r; i++ {
+								lv = append(lv, uint8(v))
+							}
+							o2 := uint8((v + 1) % nv)
+							switch tail {
+							case 1:
+								lv = append(lv, o2)
+							case 2:
+								lv = append(lv, o2, uint8(v), o2)
+							case 3:
+								for i := 0; i < 8; i++ {
+									lv = append(lv, o2)
+								}
+							case 4:
+								for i := 0; i < 9; i++ {
+									lv = append(lv, uint8((v+i)%nv))
+								}
+							}
+							st, prob := encode(o.W, o.Kind, lv)
+							if prob == "" {
+								prob = judgeEnc(st, o.W, lv)
+							}
+							total++
+							if prob != "" && len(bad) < 5 {
+								bad = append(bad, event{"levels": ints(lv), "stream": bints(st), "problem": prob})
+							}
+							if o.Sample > 0 && total%o.Sample == 0 && len(lv) <= 600 {
+								emitted++
+								emit(event{"ev": "Enc", "w": o.W, "kind": o.Kind, "levels": ints(lv), "stream": bints(st), "problem": ""})
+							}
+						}
+					}
+				}
+			}
+		}
+		emit(event{"ev": "RunsAll", "op": o.Op, "w": o.W, "kind": o.Kind, "count": total, "bad": bad, "nbad": len(bad)})
 	case "mirror":
 		nbad := 0
 		for _, v := range o.Vectors {
